@@ -125,7 +125,7 @@ def run(tier: str, seed: int) -> int:
     procs = []
     for nt in nts:
         for sched, w in ([("synchronous", 1), ("threads", 4)] if quick else [("synchronous", 1), ("threads", 1), ("threads", 4), ("threads", 16)]):
-            env = dict(os.environ, NUMBA_NUM_THREADS=str(nt), PYTHONPATH=VERIF_DIR + ":/repo", NUMBA_DISABLE_PERFORMANCE_WARNINGS="1")
+            env = dict(os.environ, NUMBA_NUM_THREADS=str(nt), PYTHONPATH=VERIF_DIR + ":" + os.environ.get("VERIF_REPO", "/repo"), NUMBA_DISABLE_PERFORMANCE_WARNINGS="1")
             p = subprocess.Popen([sys.executable, "-W", "ignore", "-m", "harness.c18_ops", sched, str(w), str(seed), "2" if quick else "3"], cwd=VERIF_DIR, env=env,
                                  stdout=subprocess.PIPE, stderr=subprocess.PIPE, text=True)
             procs.append(((nt, sched, w), p))
